@@ -32,7 +32,9 @@ def sanitize(m):
                 ex = r[2]
                 if not M.variables(ex):
                     v, _ = RE.evaluate(ex, {}, lo=0.0, hi=float("inf"))
-                    if v.st == RE.RANGE or (v.st == RE.DEFINED and abs(v.v) > EXPONENT_LIMIT):
+                    # UNDECIDED: e.g. 1/(cbrt(-5) + 1.709975946676697) - the reference cannot tell 0 from 2e-16, the library's
+                    # float arithmetic gets 4.5e15 and folds it into an integer exponent
+                    if v.st in (RE.RANGE, RE.UNDECIDED) or (v.st == RE.DEFINED and abs(v.v) > EXPONENT_LIMIT):
                         r = ("Power", r[1], ("Constant", 2))
         memo[k] = r
         return r
